@@ -43,17 +43,22 @@ GROUPS = {
 
 
 def signature(facts, b):
-    pv = Prov(b)
-    pv.max_depth = 24
+    """(a) what the body does: maximal call terms in effects normal form, (b) the fields of its arguments it writes, (c) every value it
+    can return, in normal form (engine/nf.py: Option / iterator plumbing, closures, casts and delegation to crate-local functions are
+    erased, so a refactor that routes the same values differently keeps the signature)."""
+    import nf
+    from rules_types import effects_nf, _NF
+    out = list(effects_nf(facts, b))
+    N = _NF[id(facts)]
     rets = set(mirq.return_blocks(b))
-    out = list(call_prov_of(facts, b))
+    pv = nf.NProv(b, facts)
     for i, bl, s in assigns(b):
         pl = s["place"]
         if pl["p"] and 1 <= pl["l"] <= b["arg_count"] and "*" in mirq.place_fields(pl):
             always = not (mirq.reachable(b, 0, avoid={i}) & rets)
-            out.append("arg%d.%s := %s [%s]" % (pl["l"], ".".join(mirq.field_path(pl)), fmt_roots(pv.of_rvalue(s["rv"], 0)),
-                                                "always" if always else "sometimes"))
-    out.append("returns " + fmt_roots(pv.of_local(0)))
+            vals = " | ".join(sorted(N.alts(pv.of_rvalue(s["rv"], 0))))
+            out.append("arg%d.%s := %s [%s]" % (pl["l"], ".".join(mirq.field_path(pl)), vals, "always" if always else "sometimes"))
+    out.append("returns " + " | ".join(N.value_flow(b)))
     return sorted(out)
 
 
